@@ -4,13 +4,17 @@ import Model.Numscript.VM
 import Lemmas.NumResolve
 import Lemmas.NumRun
 import Lemmas.NumCheck
+import Lemmas.NumRunEq
+import Lemmas.NumFront
 /-! C12 — no script, variable map or ledger state can crash the engine.
-Stage 1: at the level of `Spec` (the source-level interpreter the compiler+VM are differentially tied to).
-`Spec.run` is a total Lean function — every recursion in it (`evalSource`/`evalSources`,
-`evalDest`/`evalKD`/`evalCaps`/`evalAllot`, `evalStmts`, `resolveVars`) was accepted by Lean's structural
-termination checker, so termination for every program, variable map and store is part of what the kernel
-checked — and its outcome type has no "crash" alternative.  The bytecode-level `vm_never_panics` (typed stacks,
-explicit panic outcomes) is the planned stage 2 (DESIGN §5 C12). -/
+Stage 1: at the level of `Spec` (the source-level interpreter).  `Spec.run` is a total Lean function — every
+recursion in it (`evalSource`/`evalSources`, `evalDest`/`evalKD`/`evalCaps`/`evalAllot`, `evalStmts`, `resolveVars`)
+was accepted by Lean's structural termination checker, so termination for every program, variable map and store is
+part of what the kernel checked — and its outcome type has no "crash" alternative.
+Stage 2: the bytecode level (model A2: compiler and stack VM with every Go panic site as an explicit outcome):
+`vm_terminates`, `compile_never_panics`, `resolve_never_panics` and **`vm_never_panics`** — for every compiled program
+of the whole language, every variable map and every store, no panic outcome is reachable (a corollary of
+`C08.compile_correct`).  The models are tied to the Go compiler and VM by the differentials of `checks/c12.py`. -/
 namespace C12
 open Num
 
@@ -82,18 +86,14 @@ theorem compile_never_panics (P : Script) : compile P ≠ .error .nilAddr := by
 
 /-! #### the VM never panics
 
-The FULL statement:
-```
-theorem vm_never_panics (P : Script) (prog : Program) (hc : compile P = .ok prog) (hne : P.stmts ≠ [])
-    (req : Request) (store : Store) : (VM.run prog req store).isPanic = false
-```
-(`P.stmts ≠ []` is a fact of the grammar; `Execute` indexes `Instructions[0]`.)  Proved below for the fragment
-`Script.frag` (see `C08.compile_correct_partial`), for EVERY variable map and EVERY store content: none of the
-explicit panic outcomes of the VM model (typed pop of the wrong type, pop on an empty stack, `BUMP` out of
-range, `SAVE`/`repay` through a missing balance map, nil `Amount`, "stack not empty after execution",
-unsupported value in `GetTxMetaJSON`) is reachable.  Missing: the typing argument for source / destination
-allotments and ordered destinations (`MAKE_ALLOTMENT`, `ALLOC`, `BUMP n`, `kept`) — observed panic-free by the
-differential (model and real VM agree on panic / no panic on every generated case). -/
+`vm_never_panics`: for EVERY compiled program (the whole language; side conditions `Script.wellFormed`, see
+`C08.compile_correct`: at least one statement — `Execute` indexes `Instructions[0]` —, lists shorter than 2^64, no
+portion literal with a zero denominator), EVERY variable map and EVERY store content: none of the explicit panic
+outcomes of the VM model (typed pop of the wrong type, pop on an empty stack, `BUMP` out of range, `SAVE`/`repay`
+through a missing balance map, nil `Amount`, "stack not empty after execution", unsupported value in
+`GetTxMetaJSON`, the type assertions of `ResolveResources`/`ResolveBalances`) is reachable.  It is a corollary of
+compiler correctness: `VM.run` of the compiled program is `Spec.run`, whose outcome type has no panic.
+`vm_never_panics_partial` is the earlier statement on `Script.frag` (kept). -/
 theorem vm_never_panics_partial (P : Script) (prog : Program) (hc : compile P = .ok prog) (hfr : P.frag)
     (req : Request) (store : Store) : (VM.run prog req store).isPanic = false := by
   cases hv : VM.setVarsFromJSON prog req.vars with
@@ -113,7 +113,8 @@ theorem vm_never_panics_partial (P : Script) (prog : Program) (hc : compile P = 
         obtain ⟨cx, hE, hok⟩ := run_setup hc hv hr hb
         have hrel : Rel B.accts B.keys ({ balances := B } : VM.Machine) { st := { bal := B.bal, postings := [] } } :=
           ⟨rfl, rfl, rfl, rfl, rfl, rfl, rfl, hok⟩
-        have hex := execute_correct hc hfr cx hE _ _ hrel
+        have hp := vpos_of_resolved hc (frag_tablePos hc hfr) hv hr hb
+        have hex := execute_correct hc hfr cx hp hE _ _ hrel
         simp only [VM.run, hv, hr, hb]
         cases hev : evalStmts (envOf prog.resources vals) P.stmts { st := { bal := B.bal, postings := [] } } with
         | error er =>
@@ -124,6 +125,31 @@ theorem vm_never_panics_partial (P : Script) (prog : Program) (hc : compile P = 
           obtain ⟨m', hx, hr'⟩ := hex
           simp only [hx, hr'.txMeta, hr'.acctMeta, renderTxMeta_map, renderAcctMeta_map]
           split <;> rfl
+
+/-- **no script, variable map or ledger state can make the VM panic** — the whole language -/
+theorem vm_never_panics (P : Script) (prog : Program) (hc : compile P = .ok prog) (hwf : P.frag2)
+    (req : Request) (store : Store) : (VM.run prog req store).isPanic = false := by
+  have h := run_eq hc hwf req store
+  cases hr : VM.run prog req store with
+  | ok r => rfl
+  | error e => rfl
+  | panic k =>
+    rw [hr] at h
+    cases hs : (Num.run P req store).map Num.Result.obs with
+    | ok o => rw [hs] at h; cases h
+    | error e => rw [hs] at h; cases h
+
+/-! non-vacuity: the hypotheses are satisfiable by a program with allotments on both sides, an ordered destination
+with `kept`, and a portion literal as metadata -/
+def exAll : Script :=
+  ⟨[], [.send (.mon (.mon (.asset "USD") 9))
+          (.allot [(.const ⟨1, 3⟩, .acct (.acct "b") .none), (.remaining, .acct (.acct "world") .none)])
+          (.inorder (.cons (.mon (.asset "USD") 2) .kept .nil)
+            (.to (.allot (.cons (.const ⟨1, 2⟩) (.to (.acct (.acct "x"))) (.cons .remaining (.to (.acct (.acct "y"))) .nil))))),
+        .setTxMeta "p" (.portion ⟨2, 4⟩)]⟩
+
+example : Script.frag2 exAll := ⟨by simp [exAll], by intro s hs; simp [exAll] at hs; rcases hs with rfl | rfl <;> decide⟩
+example : (compile exAll).toOption.isSome = true := by decide +kernel
 
 end C12
 
@@ -154,6 +180,13 @@ theorem runText_total (bs : List UInt8) (req : Request) (store : Store) :
   cases h : runBytes bs req store with
   | ok r => exact Or.inl ⟨r, rfl⟩
   | error e => exact Or.inr ⟨e, rfl, by cases e <;> simp⟩
+
+/-- **no text, variable map or ledger state can make the VM panic**: for every text (shorter than 2^64 characters)
+that the front end and the compiler accept — `front_wellFormed`: the side conditions of `vm_never_panics` hold of
+whatever the front end produces -/
+theorem vm_never_panics_text (t : String) (P : Script) (h : front t = some P) (hlen : t.toList.length < 18446744073709551616)
+    (prog : Program) (hc : compile P = .ok prog) (req : Request) (store : Store) : (VM.run prog req store).isPanic = false :=
+  vm_never_panics P prog hc (Num.front_wellFormed (by unfold front at h; exact h) hlen) req store
 
 /-- the lexer makes progress and loses nothing: every token (skipped ones included) is non-empty and the token
 texts, in order, concatenate to the input -/
